@@ -197,3 +197,76 @@ def twin(p0: bool, opt: bool) -> bool:
     """
     ok = required_get(p0, False, True, False, False, False, False, False, False, opt, False)
     return not (ok and p0 and opt)
+
+
+# ---------------------------------------------------------------------------- (C) the emitted _get_response
+def load_rest():
+    path = os.path.join(OUT, "google/example/rs_v1/services/library/transports/rest.py")
+    text = open(path).read()
+    if CANARY == "drop-delete-body":
+        text = text.replace("data=body,", 'data=body if method in ("post", "put", "patch") else None,')
+    tree = ast.parse(text)
+    outer = [n for n in tree.body if isinstance(n, ast.ClassDef) and n.name == "LibraryRestTransport"][0]
+    fns = {}
+    for c in outer.body:
+        if isinstance(c, ast.ClassDef):
+            for f in c.body:
+                if isinstance(f, ast.FunctionDef) and f.name == "_get_response":
+                    f.decorator_list = []
+                    mod = ast.Module(body=[f], type_ignores=[])
+                    ast.fix_missing_locations(mod)
+                    ns = {"rest_helpers": NS(flatten_query_params=lambda q, strict=False: ("FLAT", tuple(sorted(q.items())), strict))}
+                    exec(compile(mod, "emitted:rest.py:" + c.name + "._get_response", "exec"), ns)
+                    fns[c.name] = (ns["_get_response"], [a.arg for a in f.args.args])
+    return fns
+
+
+REST = load_rest() if OUT else None
+SENDERS = ["_GetThing", "_PutThing", "_PostThing", "_PatchThing", "_DeleteThing", "_TwoVars", "_PurgeThings"]
+VERBS = ["get", "put", "post", "patch", "delete"]
+
+
+class _Session:
+    def __init__(self):
+        self.calls = []
+
+    def __getattr__(self, verb):
+        if verb.startswith("_"):
+            raise AttributeError(verb)
+
+        def send(url, **kw):
+            self.calls.append((verb, url, kw))
+            return ("RESPONSE", verb)
+        return send
+
+
+def send(which: int, verb: int, with_query: bool) -> bool:
+    """
+    pre: 0 <= which <= 6 and 0 <= verb <= 4
+    post: _
+    """
+    which, verb, with_query = conc(which, 0, 6), conc(verb, 0, 4), bool(with_query)
+    with untraced():
+        fn, params = REST[SENDERS[which]]
+        sess = _Session()
+        q = {"a": 1} if with_query else {}
+        tr = {"uri": "/v1/x/y", "method": VERBS[verb], "body": "ignored", "query_params": "ignored"}
+        args = dict(host="https://h.example", metadata=[("k", "v")], query_params=q, session=sess, timeout=4.5, transcoded_request=tr)
+        has_body = SENDERS[which] in ("_PutThing", "_PostThing", "_PatchThing", "_PurgeThings")   # rules declaring a body
+        if has_body:
+            args["body"] = '{"payload": true}'
+        out = fn(**args)
+        if out != ("RESPONSE", VERBS[verb]) or len(sess.calls) != 1:
+            return False
+        v, url, kw = sess.calls[0]
+        # verb and URL are the binding chosen by transcoding; the payload travels whenever the rule declares a body,
+        # whatever the verb; query parameters are flattened strictly; caller metadata becomes headers
+        if v != VERBS[verb] or url != "https://h.example/v1/x/y" or kw.get("timeout") != 4.5:
+            return False
+        if kw.get("params") != ("FLAT", tuple(sorted(q.items())), True):
+            return False
+        if kw.get("headers") != {"k": "v", "Content-Type": "application/json"}:
+            return False
+        if has_body:
+            return kw.get("data") == '{"payload": true}'
+        return "data" not in kw or kw.get("data") is None
